@@ -1330,6 +1330,10 @@ class Model:
         seeds = jax.random.split(seed, len(dists))
 
         for dist, seed in zip(dists, seeds):
+            # the inputs may be outdated, e.g. if they depend on values that were just
+            # simulated while auto_update is off
+            self.update(dist.name)
+
             tfp_dist = dist.init_dist()
 
             event_shape = tfp_dist.event_shape
